@@ -306,6 +306,16 @@ def components_scenario(ctx, seed):
         r = impl.call(curate.add_from_components, [cfiles['Part-Orb'], cfiles['Part-EcpA']], d, 'comb', 'comb-a', 'Comb-A', 'addfam', 'orbital', 'desc of Comb-A', '1', 'rev 1')
         after = snapshot(d)
         history.append(['add_from_components', 'Comb-A', r[0] if r[0] == 'ok' else r[1]])
+
+        def against_model(before_, after_, r_, comps, strs):
+            if ctx.model is None:
+                return
+            model_dir = {k: (json.loads(v) if v.strip() else None) for k, v in before_.items() if k.endswith('.json')}
+            m = ctx.model.call('add_from_components', model_dir, [os.path.relpath(c, d) for c in comps], strs + [today])
+            got_dir = {k: json.loads(v) for k, v in after_.items() if k.endswith('.json')}
+            got = ('ok', got_dir) if r_[0] == 'ok' else (r_[0], 'Validation' if 'ValidationError' in r_[1] else r_[1])
+            ctx.compare('add_from_components', norm_err(got), norm_err(m), {'kind': 'components', 'seed': seed, 'history': list(history)})
+        against_model(before, after, r, [cfiles['Part-Orb'], cfiles['Part-EcpA']], ['comb', 'comb-a', 'Comb-A', 'addfam', 'orbital', 'desc of Comb-A', '1', 'rev 1'])
         ctx.case((seed, 'components-valid'), True, 'add:components')
         replay = {'kind': 'components', 'seed': seed, 'history': history}
         for k, v in before.items():
@@ -338,6 +348,7 @@ def components_scenario(ctx, seed):
         r = impl.call(curate.add_from_components, [cfiles['Part-Orb'], cfiles['Part-EcpA'], cfiles['Part-EcpB']], d, 'comb', 'comb-b', 'Comb-B', 'addfam', 'orbital', 'desc of Comb-B', '0', 'rev 0')
         after = snapshot(d)
         history.append(['add_from_components:two-ecps', 'Comb-B', r[0] if r[0] == 'ok' else r[1]])
+        against_model(before, after, r, [cfiles['Part-Orb'], cfiles['Part-EcpA'], cfiles['Part-EcpB']], ['comb', 'comb-b', 'Comb-B', 'addfam', 'orbital', 'desc of Comb-B', '0', 'rev 0'])
         ctx.case((seed, 'components-two-ecps'), True, 'add:components-two-ecps')
         replay = {'kind': 'components', 'seed': seed, 'history': history}
         if r[0] == 'ok':
